@@ -214,7 +214,7 @@ func genC05(t *rapid.T) any {
 	}
 	// scale: the whole sequence is ordered and the window exact whatever the size of the table
 	if c.Big == nil && len(tb.Rows) > 0 {
-		if sc := genScale(t, 16, "scale"); sc != nil {
+		if sc := genScale(t, 9, "scale"); sc != nil {
 			if len(c.Keys) > 0 {
 				if kc := tb.Col(c.Keys[0].Col); kc != nil && (kc.Kind == "int" || kc.Kind == "num" || kc.Kind == "str") {
 					var pool []any
